@@ -1139,6 +1139,173 @@ theorem update_then_query (s0 s1 : Source) (pre : List Step) (m : Module) (a : S
     answers s0 (pre ++ [.update s1, .moduleGet m a d]) = answers s0 pre ++ answers s1 [.moduleGet m a d] := by
   rw [answers_append]; rfl
 
+/-! ### `_create_history`: records with the same validity interval overwrite each other -/
+
+/-- the last record of the source with the given `(date_from, date_to)` -/
+def latest {ρ} (key : ρ → Interval) (rs : List ρ) (k : Interval) : Option ρ :=
+  rs.reverse.find? (fun r => key r = k)
+
+theorem latest_cons {ρ} (key : ρ → Interval) (r : ρ) (t : List ρ) (k : Interval) :
+    latest key (r :: t) k = (latest key t k).orElse (fun _ => if key r = k then some r else none) := by
+  simp only [latest, List.reverse_cons, List.find?_append]
+  cases List.find? (fun r => decide (key r = k)) t.reverse with
+  | some x => rfl
+  | none => by_cases h : key r = k <;> simp [h]
+
+theorem histGet_find {ε} (h : History ε) (d : Date) :
+    histGet h d = (h.find? (fun p => contains p.1 d)).map (·.2) := by
+  induction h with
+  | nil => rfl
+  | cons p t ih =>
+    obtain ⟨k, e⟩ := p
+    simp only [histGet, List.find?_cons]
+    by_cases hc : contains k d = true
+    · simp [hc]
+    · simp [hc, ih]
+
+/-- `history[k0] = v0` seen through the interval search -/
+theorem dictSet_find {ε} (h : History ε) (k0 : Interval) (v0 : ε) (d : Date) :
+    (dictSet h k0 v0).find? (fun p => contains p.1 d) =
+      match h.find? (fun p => contains p.1 d) with
+      | some p => some (p.1, if p.1 = k0 then v0 else p.2)
+      | none => if contains k0 d then some (k0, v0) else none := by
+  induction h with
+  | nil => by_cases hc : contains k0 d = true <;> simp [dictSet, hc]
+  | cons p t ih =>
+    obtain ⟨k', v'⟩ := p
+    by_cases hk : k' = k0
+    · subst hk
+      by_cases hc : contains k' d = true
+      · simp [dictSet, hc]
+      · simp only [dictSet, if_true, List.find?_cons, hc]
+        cases hf : List.find? (fun p => contains p.1 d) t with
+        | none => simp [hc]
+        | some q =>
+          have hq := List.find?_some hf
+          have hne : q.1 ≠ k' := by intro e; rw [e] at hq; exact hc hq
+          simp [hne]
+    · by_cases hc : contains k' d = true
+      · simp [dictSet, hk, hc]
+      · simp only [dictSet, hk, if_false, List.find?_cons, hc]
+        exact ih
+
+/-- the interval search over the dictionary `_create_history` builds, started from a dictionary `h` -/
+theorem createHistory_find {ρ} (key : ρ → Interval) (rs : List ρ) (h : History ρ) (d : Date) :
+    (createHistory key rs h).find? (fun p => contains p.1 d) =
+      match h.find? (fun p => contains p.1 d) with
+      | some p => some (p.1, (latest key rs p.1).getD p.2)
+      | none => (rs.find? (fun r => contains (key r) d)).bind
+          (fun r0 => (latest key rs (key r0)).map (fun r => (key r0, r))) := by
+  induction rs generalizing h with
+  | nil =>
+    simp only [createHistory, latest, List.reverse_nil, List.find?_nil, Option.getD_none, Option.bind_none]
+    cases hf : List.find? (fun p => contains p.1 d) h <;> rfl
+  | cons r t ih =>
+    simp only [createHistory]
+    rw [ih, dictSet_find]
+    cases hf : List.find? (fun p => contains p.1 d) h with
+    | some p =>
+      simp only [latest_cons]
+      by_cases hk : p.1 = key r
+      · cases latest key t p.1 <;> simp [hk, Option.orElse]
+      · have hk' : ¬ key r = p.1 := fun e => hk e.symm
+        cases latest key t p.1 <;> simp [hk, hk', Option.orElse]
+    | none =>
+      simp only [List.find?_cons]
+      by_cases hc : contains (key r) d = true
+      · simp only [hc, if_true, Option.bind_some, latest_cons]
+        cases latest key t (key r) <;> simp [Option.orElse]
+      · simp only [hc]
+        cases hft : List.find? (fun r => contains (key r) d) t with
+        | none => rfl
+        | some r0 =>
+          have hr0 := List.find?_some hft
+          have hne : ¬ key r = key r0 := by intro e; rw [← e] at hr0; exact hc hr0
+          simp only [Bool.false_eq_true, if_false, Option.bind_some, latest_cons, hne]
+          cases latest key t (key r0) <;> simp [Option.orElse]
+
+/-- **the interval search, exactly**: the answer for a date is found by taking the first record of the source (in source
+order) whose `[date_from, date_to)` contains the date, and then the *last* record of the source with that same
+`(date_from, date_to)` — records with equal start *and* end overwrite each other in `history[(date_from, date_to)] = …`
+(the later one wins, at the position of the earlier one); records with equal start but different ends are different keys
+and the earlier one in source order answers -/
+theorem lookup_exact {ρ} (key : ρ → Interval) (rs : List ρ) (d : Date) :
+    histGet (createHistory key rs []) d =
+      (rs.find? (fun r => contains (key r) d)).bind (fun r0 => latest key rs (key r0)) := by
+  rw [histGet_find, createHistory_find]
+  simp only [List.find?_nil]
+  cases rs.find? (fun r => contains (key r) d) with
+  | none => rfl
+  | some r0 => simp only [Option.bind_some]; cases latest key rs (key r0) <;> rfl
+
+/-- what is stored under an interval is the last record of the source with that interval -/
+theorem lookup_overwrite {ρ} (key : ρ → Interval) (pre mid post : List ρ) (a b : ρ) (d : Date)
+    (hab : key a = key b) (hw : contains (key a) d = true)
+    (hpre : ∀ r ∈ pre, contains (key r) d = false) (hpost : ∀ r ∈ post, key r ≠ key a) :
+    histGet (createHistory key (pre ++ a :: mid ++ b :: post) []) d = some b := by
+  rw [lookup_exact]
+  have h1 : (pre ++ a :: mid ++ b :: post).find? (fun r => contains (key r) d) = some a := by
+    simp only [List.append_assoc, List.cons_append, List.find?_append]
+    have : pre.find? (fun r => contains (key r) d) = none := by
+      rw [List.find?_eq_none]; intro x hx; simp [hpre x hx]
+    simp [this, hw]
+  rw [h1]
+  simp only [Option.bind_some, latest, List.reverse_append, List.reverse_cons, List.append_assoc, List.find?_append]
+  have : post.reverse.find? (fun r => decide (key r = key b)) = none := by
+    rw [List.find?_eq_none]; intro x hx; simp [hab ▸ hpost x (List.mem_reverse.1 hx)]
+  simp [this, hab]
+
+/-! ### SSC coordinates: a hole between two solutions stays a hole -/
+
+/-- the date is not inside the record's `[start, end)`: before the start, or at / after a closed end -/
+def Outside (r : Raw) (d : Date) : Prop :=
+  d < openFrom r.start ∨ (openTo r.stop ≤ d ∧ openTo r.stop ≠ dmax)
+
+theorem not_within_of_outside (r : Raw) (d : Date) (h : Outside r d) : ¬ Within r.key d := by
+  intro hw
+  simp only [Within, Raw.key] at hw
+  rcases h with h | ⟨h1, h2⟩
+  · omega
+  · rcases hw.2 with h3 | h3
+    · omega
+    · exact h2 h3
+
+/-- **`ssc_holes_preserved`**: a date that lies in none of the `[DATA_START, DATA_END)` of the station's solutions is
+answered with `None` by `SiteCoord.get("ssc", …)` — the validity of a solution ends at its own DATA_END, whatever
+solution follows and however soon -/
+theorem ssc_holes_preserved (dd : List (Str × SscStation)) (station : Str) (st : SscStation) (d : Date)
+    (hne : dd ≠ []) (hst : findKey dd station = some st)
+    (hhole : ∀ p ∈ st.posvel, Outside p.2 d) :
+    moduleGet1 .siteCoord (.ssc dd) station (some (.at d)) = .ok .none := by
+  rw [ssc_siteCoord_get dd station st d hne hst]
+  simp only [answerOf]
+  rw [lookup_none Raw.key (st.posvel.map (·.2)) d]
+  intro r hr
+  obtain ⟨p, hp, rfl⟩ := List.mem_map.1 hr
+  exact not_within_of_outside p.2 d (hhole p hp)
+
+/-- in particular the gap between the DATA_END `e` of one solution and the DATA_START `s` of the next, for every length
+of the gap (the 30 s between `yy:ddd:86370` and `yy:ddd+1:00000` of real SSC files included), the end instant itself
+included: every solution either has ended by `e` or starts at `s` or later -/
+theorem ssc_gap_is_hole (dd : List (Str × SscStation)) (station : Str) (st : SscStation) (d e s : Date)
+    (hne : dd ≠ []) (hst : findKey dd station = some st) (he : e ≤ d) (hs : d < s)
+    (hsplit : ∀ p ∈ st.posvel, (openTo p.2.stop ≤ e ∧ openTo p.2.stop ≠ dmax) ∨ s ≤ openFrom p.2.start) :
+    moduleGet1 .siteCoord (.ssc dd) station (some (.at d)) = .ok .none := by
+  apply ssc_holes_preserved dd station st d hne hst
+  intro p hp
+  rcases hsplit p hp with ⟨h1, h2⟩ | h
+  · exact Or.inr ⟨by omega, h2⟩
+  · exact Or.inl (by omega)
+
+/-- the combined query holds the same `None` (combined = modules) — stated on the model's executable functions for a
+station with two solutions 30 s apart: dates at the end, inside the gap and one microsecond before the next start -/
+example :
+    let src : Source := .ssc [([122, 105, 109, 109], ⟨1, [(1, ⟨some 1000000000, some 86370000000, 11⟩),
+                                                          (2, ⟨some 86400000000, none, 12⟩)]⟩)]
+    [86369999999, 86370000000, 86385000000, 86399999999, 86400000000].map
+      (fun d => (moduleGet1 .siteCoord src [122, 105, 109, 109] (some (.at d))).toOption) =
+    [some (.entry ⟨11, []⟩), some .none, some .none, some .none, some (.entry ⟨12, []⟩)] := by decide +kernel
+
 /-! ### Non-vacuity -/
 
 example : histGet [((0, 10), 1), ((10, 20), 2)] 10 = some 2 := by decide +kernel
@@ -1235,3 +1402,12 @@ end Midgard.Props.C18
 #print axioms Midgard.Props.C18.answers_append
 #print axioms Midgard.Props.C18.answer_of_current_contents
 #print axioms Midgard.Props.C18.update_then_query
+#print axioms Midgard.Props.C18.latest_cons
+#print axioms Midgard.Props.C18.histGet_find
+#print axioms Midgard.Props.C18.dictSet_find
+#print axioms Midgard.Props.C18.createHistory_find
+#print axioms Midgard.Props.C18.lookup_exact
+#print axioms Midgard.Props.C18.lookup_overwrite
+#print axioms Midgard.Props.C18.not_within_of_outside
+#print axioms Midgard.Props.C18.ssc_holes_preserved
+#print axioms Midgard.Props.C18.ssc_gap_is_hole
